@@ -163,7 +163,15 @@ def check_mapcond(ctx, S):
         if len(sh) != 1 or sh[0][0] == "other":
             continue   # reported by the shape clause
         sh = sh[0]
-        c = A.conj(list(terms) + A.path_condition(A.enclosing_stmt(call), S.fn))
+        # only the part of the path condition that talks about what the alternatives talk about (unrelated guards - a deferred raise, option defaults - add atoms
+        # but no information, and push the truth table over its size limit)
+        rel = set()
+        for t_, _ in alts:
+            rel |= A._atoms(t_, set())
+        for t_ in terms:
+            rel |= A._atoms(t_, set())
+        pcs = [t_ for t_ in A.path_condition(A.enclosing_stmt(call), S.fn) if A._atoms(t_, set()) & rel and A._atoms(t_, set()) <= rel]
+        c = A.conj(list(terms) + pcs)
         if sh[0] == "M[G]":
             m = canon(sh[1])
             same = [t for t, mm in alts if mm == m]
@@ -299,6 +307,8 @@ def run(ctx):
                          "(otherwise rows come back in another order than the log-prob columns).")
     from .C02 import check_passthrough
     check_passthrough(ctx, "C06-ROWS")
+    from .C17 import check_unpack_shape
+    check_unpack_shape(ctx, "C06-ROWS")
     ctx.rule("C06-CHAIN", "iterative samplers: position i of the accumulated likelihood array is row M[i] - windows are consecutive [cursor, cursor+size) and the cursor "
                           "advances by the size just evaluated (shared with C14-CHAIN).")
     from .C14 import check_chain
@@ -310,6 +320,10 @@ def run(ctx):
     from .C07 import _Relabel
     check_batch_tasks(_Relabel(ctx, {"C16-P": "C06-PART"}))
     check_run_worker(_Relabel(ctx, {"C16-RUN": "C06-PART"}))
+    from .C12 import check_dispatch
+    ctx.rule("C06-READ", "the likelihood stage and the row-producing stage read the library through the same conversions: every selector kind of read_batch forwards file, "
+                         "columns and units to its reader (shared with C12-DISPATCH).")
+    check_dispatch(_Relabel(ctx, {"C12-DISPATCH": "C06-READ"}))
     ctx.floor("C06-FIELD", ctx.count("C06-FIELD"), 2)
     check_api(ctx)
     ctx.assume("numpy fancy indexing and tables.read_coordinates return rows in the order of the index array")
